@@ -89,7 +89,11 @@ pub fn with_hard_error(rng: &mut Rng, mut plan: Vec<IoStep>, max_at: usize) -> V
     while plan.len() < at {
         plan.push(IoStep::Chunk(1 << 20));
     }
-    plan.insert(at, IoStep::Err(EIO));
+    // mostly EIO; sometimes another errno that no reader may take for end of input or retry
+    // (ENOMEM, EISDIR, ENXIO, ETIMEDOUT, ECONNRESET). Not EBADF (std reads a closed stdin as empty
+    // by design) and not EAGAIN (retrying a non-blocking stream is legitimate).
+    let errno = *rng.pick(&[EIO, EIO, EIO, 12, 21, 6, 110, 104]);
+    plan.insert(at, IoStep::Err(errno));
     plan
 }
 
